@@ -32,9 +32,21 @@ def pattern_events(pat, lead=0, order=WINDOW_ORDER):
     return ev
 
 
-def mk_case(events_, mixers=True, thermostats=True, label="", pattern=None):
+SCHEMA_KIND = 1     # an EMPTY regulator-data schema provides nothing: for set-up it is not an answer
+
+
+def mk_case(events_, mixers=True, thermostats=True, label="", pattern=None, minimal=()):
+    """minimal: kinds answered with their smallest well-formed answer (empty alert log, no parameters, no
+    schedules, empty password, empty schema)"""
     return dict(events=list(events_), mixers=bool(mixers), thermostats=bool(thermostats), label=label,
-                pattern=list(pattern) if pattern is not None else None)
+                pattern=list(pattern) if pattern is not None else None, minimal=sorted(minimal))
+
+
+def model_events(c):
+    """what the machine is told: an empty-schema answer is no answer"""
+    if SCHEMA_KIND in c.get("minimal", ()):
+        return ["w:0" if e == f"a:{SCHEMA_KIND}" else e for e in c["events"]]
+    return c["events"]
 
 
 def rand_versions(rng):
@@ -74,7 +86,10 @@ def random_history(rng):
 def gen_cases(rng, tier):
     for fn, ln in load_corpus("C16"):
         w = ln.split()
-        yield mk_case(w[2:], w[0] == "1", w[1] == "1", "corpus")
+        mn, ev = [], w[2:]
+        if ev and ev[0].startswith("m="):      # kinds answered minimally
+            mn, ev = [int(x) for x in ev[0][2:].split(".")], ev[1:]
+        yield mk_case(ev, w[0] == "1", w[1] == "1", "corpus", None, mn)
     # the 256 subsets: every answered kind answered on the first attempt
     for m in range(256):
         pat = [1 if (m >> k) & 1 else 0 for k in range(N)]
@@ -106,12 +121,20 @@ def gen_cases(rng, tier):
         pat = [rng.choice([1, 2, 3]) if (m >> k) & 1 else 0 for k in range(N)]
         mixers, thermostats = [(False, True), (True, False), (False, False)][i % 3]
         yield mk_case(pattern_events(pat), mixers, thermostats, "variant", pat)
+    # minimal answers: every kind on its own, all together, and random subsets -- everything answered, so set-up
+    # must load early with an empty error list (but for the empty schema, which provides nothing)
+    MINIMAL_KINDS = [1, 2, 3, 4, 7]
+    subsets = [[k] for k in MINIMAL_KINDS] + [MINIMAL_KINDS] + [[k for k in MINIMAL_KINDS if rng.random() < 0.5] for _ in range(nvar // 4)]
+    for mn in subsets:
+        for pat in ([1] * N, [rng.choice([1, 2, 3]) for _ in range(N)], [rng.randrange(4) for _ in range(N)]):
+            yield mk_case(pattern_events(pat), 5 not in mn or rng.random() < 0.5, rng.random() < 0.7, "minimal-answers", pat, mn)
     for _ in range(nrand):
-        yield mk_case(random_history(rng), rng.random() < 0.8, rng.random() < 0.8, "random")
+        mn = [k for k in MINIMAL_KINDS if rng.random() < 0.15]
+        yield mk_case(random_history(rng), rng.random() < 0.8, rng.random() < 0.8, "random", None, mn)
 
 
 def run_impl(c):
-    groups, summ = setupm.run_history(c["events"], c["mixers"], c["thermostats"])
+    groups, summ = setupm.run_history(c["events"], c["mixers"], c["thermostats"], c.get("minimal", ()))
     # the harness' own bookkeeping for the judge: when was what answered (first time), when did sensors arrive
     return groups, summ
 
@@ -126,7 +149,7 @@ def _work(c):
             t0 = t
         elif e.startswith("a:"):
             k = int(e[2:])
-            if k < N and answers[k] is None:
+            if k < N and answers[k] is None and not (k == SCHEMA_KIND and SCHEMA_KIND in c.get("minimal", ())):
                 answers[k] = t
         elif e == "t" and t0 is not None:
             timers_after += 1
@@ -140,7 +163,7 @@ def impl_string(groups, summ):
 
 
 def check(res, results):
-    model = driver_batch(f"c16 {int(c['mixers'])} " + " ".join(c["events"]) for c, *_ in results)
+    model = driver_batch(f"c16 {int(c['mixers'])} " + " ".join(model_events(c)) for c, *_ in results)
     jl, jidx = [], []
     for i, (c, groups, summ, t0, answers, timers_after) in enumerate(results):
         if t0 is None:
@@ -157,7 +180,10 @@ def check(res, results):
     verdict = dict(zip(jidx, driver_batch(jl)))
     for i, ((c, groups, summ, t0, answers, timers_after), m) in enumerate(zip(results, model)):
         impl = impl_string(groups, summ)
-        inp = dict(events=c["events"], mixers=c["mixers"], thermostats=c["thermostats"], label=c["label"], pattern=c["pattern"])
+        inp = dict(events=c["events"], mixers=c["mixers"], thermostats=c["thermostats"], label=c["label"], pattern=c["pattern"],
+                   minimal=c.get("minimal", []))
+        for k in c.get("minimal", []):
+            res.count("minimal answer for kind %d" % k)
         nerr = len(summ["errors"] or [])
         res.case((tuple(c["events"]), c["mixers"], c["thermostats"]), nontrivial=t0 is not None)
         res.count("label:" + c["label"])
@@ -218,7 +244,7 @@ def replay(ctx):
     rp = ctx["replay"]
     f = rp.get("failure") or rp.get("first_difference")
     c = mk_case(f["input"]["events"], f["input"]["mixers"], f["input"]["thermostats"], f["input"].get("label", "replay"),
-                f["input"].get("pattern"))
+                f["input"].get("pattern"), f["input"].get("minimal", ()))
     res = Result("C16")
     res.rule = "replay of one recorded history"
     r = _work(c)
